@@ -149,6 +149,9 @@ def specThread (od fn allow q : Bool) : List Tok → Bool → Option String
   | [], _ => none
   | t :: rest, permitted =>
     if t.kind == "issue" && !od then some "issuance-with-on-demand-off"
+    -- the policy was asked about the name of the handshake: an order for any OTHER name (the
+    -- wildcard whose stored certificate serves it, say) was never permitted by anybody
+    else if t.kind == "issue" && t.cls != "n" then some "issuance-for-a-name-the-policy-was-not-asked-about"
     else if od && isGuardedTok t && !q then some ("not-qualifying-" ++ t.kind)
     else if od && isGuardedTok t && !fn && !allow then some ("not-on-allowlist-" ++ t.kind)
     else if od && isGuardedTok t && fn && !permitted then some ("ungated-" ++ t.kind)
